@@ -906,3 +906,30 @@ func init() {
 	intrinsics["encoding/asn1.Unmarshal"] = intrASN1Unmarshal
 	declining["encoding/asn1.Unmarshal"] = true
 }
+
+// bytes.IndexByte / strings.IndexByte, exact: the result is the least position holding the byte, or -1 when no
+// position does.
+func intrIndexByteExact(e *Exec, st *State, fr *Frame, args []Val, in ssa.Instruction, rt types.Type) []callRes {
+	c := e.C
+	sc, so, sl := e.seqOfVal(st, args[0])
+	ch, ok := args[1].(*Term)
+	if !ok || sc == nil {
+		return nil
+	}
+	r := c.Fresh("index", e.idxSort())
+	minus1 := e.idx(-1)
+	k1 := c.Var(c.FreshName("k"), e.idxSort())
+	k2 := c.Var(c.FreshName("k"), e.idxSort())
+	none := c.Forall([]*Term{k1}, c.Implies(e.inRange(k1, sl), c.Not(c.Eq(e.sel(sc, c.Add(so, k1)), ch))))
+	first := c.And(e.inRange(r, sl), c.Eq(e.sel(sc, c.Add(so, r)), ch),
+		c.Forall([]*Term{k2}, c.Implies(e.inRange(k2, r), c.Not(c.Eq(e.sel(sc, c.Add(so, k2)), ch)))))
+	st.assume(c.Ite(c.Eq(r, minus1), none, first))
+	return []callRes{{st, r}}
+}
+
+func init() {
+	intrinsics["bytes.IndexByte"] = intrIndexByteExact
+	intrinsics["strings.IndexByte"] = intrIndexByteExact
+	declining["bytes.IndexByte"] = true
+	declining["strings.IndexByte"] = true
+}
